@@ -10,9 +10,9 @@ use serde::{Deserialize, Serialize};
 use server_fn::{
     codec::{
         ByteStream, Cbor, DeleteUrl, GetUrl, Json, MsgPack, MultipartData, MultipartFormData,
-        PatchCbor, PatchJson, PatchMsgPack, PatchPostcard, PatchUrl, PostUrl, Postcard, PutCbor,
-        PutJson, PutMsgPack, PutPostcard, PutUrl, Rkyv,
-        SerdeLite, Streaming, StreamingText, TextStream,
+        PatchCbor, PatchJson, PatchMsgPack, PatchPostcard, PatchRkyv, PatchSerdeLite, PatchUrl,
+        PostUrl, Postcard, PutCbor, PutJson, PutMsgPack, PutPostcard, PutRkyv, PutSerdeLite, PutUrl,
+        Rkyv, SerdeLite, Streaming, StreamingText, TextStream,
     },
     error::{NoCustomError, ServerFnError},
     ServerFn,
@@ -104,6 +104,18 @@ macro_rules! sfn {
     };
 }
 
+/// the same with `input_derive`: the macro chooses the derives of the argument struct by the
+/// *name* of the input encoding (`Rkyv`, `SerdeLite`); for `PatchRkyv` / `PutRkyv` /
+/// `PatchSerdeLite` / `PutSerdeLite` it would derive serde's traits, which does not compile
+macro_rules! sfn_d {
+    ($name:ident, $i:ident, $o:ident, ($($d:path),*)) => {
+        #[server(input = $i, output = $o, client = LoopClient, server = LoopServer, input_derive = (Clone, $($d),*))]
+        pub async fn $name(v: Val, plan: Plan) -> Result<Val, ServerFnError> {
+            body(v, plan)
+        }
+    };
+}
+
 // every input encoding with Json output, every output encoding with Json input, and some
 // mixed pairs
 sfn!(f_json_json, FJsonJson, Json, Json);
@@ -136,6 +148,16 @@ sfn!(f_posturl_rkyv, FPosturlRkyv, PostUrl, Rkyv);
 sfn!(f_rkyv_postcard, FRkyvPostcard, Rkyv, Postcard);
 sfn!(f_patchcbor_putcbor, FPatchcborPutcbor, PatchCbor, PutCbor);
 sfn!(f_putcbor_msgpack, FPutcborMsgpack, PutCbor, MsgPack);
+// (audit) the Patch/Put wrappers of every encoding, as input and as output
+sfn!(f_json_patchcbor, FJsonPatchcbor, Json, PatchCbor);
+sfn!(f_patchmsgpack_putmsgpack, FPatchmsgpackPutmsgpack, PatchMsgPack, PutMsgPack);
+sfn!(f_putmsgpack_patchmsgpack, FPutmsgpackPatchmsgpack, PutMsgPack, PatchMsgPack);
+sfn!(f_patchpostcard_putpostcard, FPatchpostcardPutpostcard, PatchPostcard, PutPostcard);
+sfn!(f_putpostcard_patchpostcard, FPutpostcardPatchpostcard, PutPostcard, PatchPostcard);
+sfn_d!(f_patchrkyv_putrkyv, PatchRkyv, PutRkyv, (rkyv::Archive, rkyv::Serialize, rkyv::Deserialize));
+sfn_d!(f_putrkyv_patchrkyv, PutRkyv, PatchRkyv, (rkyv::Archive, rkyv::Serialize, rkyv::Deserialize));
+sfn_d!(f_patchserdelite_putserdelite, PatchSerdeLite, PutSerdeLite, (serde_lite::Serialize, serde_lite::Deserialize));
+sfn_d!(f_putserdelite_patchserdelite, PutSerdeLite, PatchSerdeLite, (serde_lite::Serialize, serde_lite::Deserialize));
 
 // ---------------------------------------------------------------- Option arguments
 /// what the Option-argument functions return: their arguments
@@ -153,6 +175,21 @@ type RO = Result<OptEcho, ServerFnError>;
 macro_rules! ofn {
     ($name:ident, $i:ident) => {
         #[server(input = $i, output = Json, client = LoopClient, server = LoopServer)]
+        pub async fn $name(
+            first: Option<u32>,
+            a: String,
+            mid: Option<String>,
+            list: Option<Vec<Inner>>,
+            n: i64,
+            last: Option<Inner>,
+        ) -> Result<OptEcho, ServerFnError> {
+            Ok(OptEcho { first, a, mid, list, n, last })
+        }
+    };
+}
+macro_rules! ofn_d {
+    ($name:ident, $i:ident, ($($d:path),*)) => {
+        #[server(input = $i, output = Json, client = LoopClient, server = LoopServer, input_derive = (Clone, $($d),*))]
         pub async fn $name(
             first: Option<u32>,
             a: String,
@@ -184,6 +221,10 @@ ofn!(o_patchmsgpack, PatchMsgPack);
 ofn!(o_putmsgpack, PutMsgPack);
 ofn!(o_patchpostcard, PatchPostcard);
 ofn!(o_putpostcard, PutPostcard);
+ofn_d!(o_patchrkyv, PatchRkyv, (rkyv::Archive, rkyv::Serialize, rkyv::Deserialize));
+ofn_d!(o_putrkyv, PutRkyv, (rkyv::Archive, rkyv::Serialize, rkyv::Deserialize));
+ofn_d!(o_patchserdelite, PatchSerdeLite, (serde_lite::Serialize, serde_lite::Deserialize));
+ofn_d!(o_putserdelite, PutSerdeLite, (serde_lite::Serialize, serde_lite::Deserialize));
 
 macro_rules! otable {
     ($($name:ident / $strct:ident),* $(,)?) => {
@@ -205,6 +246,8 @@ otable!(
     o_patchurl / OPatchurl, o_puturl / OPuturl, o_patchjson / OPatchjson, o_putjson / OPutjson,
     o_patchcbor / OPatchcbor, o_putcbor / OPutcbor, o_patchmsgpack / OPatchmsgpack,
     o_putmsgpack / OPutmsgpack, o_patchpostcard / OPatchpostcard, o_putpostcard / OPutpostcard,
+    o_patchrkyv / OPatchrkyv, o_putrkyv / OPutrkyv, o_patchserdelite / OPatchserdelite,
+    o_putserdelite / OPutserdelite,
 );
 
 // ---------------------------------------------------------------- values a codec cannot carry
@@ -212,7 +255,7 @@ otable!(
 pub struct Key {
     pub a: u8,
 }
-#[derive(Clone, Debug, Serialize, Deserialize)]
+#[derive(Clone, Debug, PartialEq, Serialize, Deserialize)]
 pub struct PoisonOut {
     pub pad: String,
     pub m: std::collections::HashMap<Key, u32>,
@@ -262,7 +305,17 @@ pub struct EPlan {
     pub many: Vec<u8>,
     pub kind: u8,
 }
-fn lib_err(kind: u8, m: String) -> server_fn::error::ServerFnErrorErr {
+pub fn eplan_of(s: &Sexp) -> EPlan {
+    EPlan {
+        variant: s.at(0).num() as u8,
+        id: u64_of(s.at(1)),
+        what: text(s.at(2)),
+        code: s.at(3).num() as u32,
+        many: s.at(4).bytes(),
+        kind: s.at(5).num() as u8,
+    }
+}
+pub fn lib_err(kind: u8, m: String) -> server_fn::error::ServerFnErrorErr {
     use server_fn::error::ServerFnErrorErr as K;
     match kind {
         1 => K::Registration(m),
@@ -277,7 +330,7 @@ fn lib_err(kind: u8, m: String) -> server_fn::error::ServerFnErrorErr {
         _ => K::UnsupportedRequestMethod(m),
     }
 }
-fn lib_err_to(e: &server_fn::error::ServerFnErrorErr) -> Sexp {
+pub fn lib_err_to(e: &server_fn::error::ServerFnErrorErr) -> Sexp {
     use server_fn::error::ServerFnErrorErr as K;
     let (k, m) = match e {
         K::Registration(m) => (1, m),
@@ -315,7 +368,7 @@ macro_rules! app_err {
             }
         }
         impl $err {
-            fn sexp(&self) -> Sexp {
+            pub fn sexp(&self) -> Sexp {
                 match self {
                     Self::Lib(e) => Lst(vec![Num(4), lib_err_to(e)]),
                     Self::NotFound { id, what } => Lst(vec![Num(1), u64_to(*id), Sexp::from_str(what)]),
@@ -323,7 +376,7 @@ macro_rules! app_err {
                     Self::Many(b) => Lst(vec![Num(3), Sexp::from_bytes(b)]),
                 }
             }
-            fn show(r: Result<u32, Self>) -> Sexp {
+            pub fn show(r: Result<u32, Self>) -> Sexp {
                 match r {
                     Ok(n) => Lst(vec![Num(0), Num(n as i64)]),
                     Err(e) => Lst(vec![Num(1), e.sexp()]),
@@ -363,6 +416,13 @@ pub const APP_FNS: &[(AppFn, AppFn)] = &[
      |p| AppErrPostcardJsonIn::show(futures::executor::block_on(e_postcard_jsonin(p)))),
     (|p| AppErrMsgPackUrlIn::show(futures::executor::block_on(EMsgpackUrlin { plan: p }.run_on_client())),
      |p| AppErrMsgPackUrlIn::show(futures::executor::block_on(e_msgpack_urlin(p)))),
+    // (audit) Rkyv- and SerdeLite-encoded error types, and one behind a middleware-free Put
+    (|p| crate::more::AppErrRkyv::show(futures::executor::block_on(crate::more::ERkyv { plan: p }.run_on_client())),
+     |p| crate::more::AppErrRkyv::show(futures::executor::block_on(crate::more::e_rkyv(p)))),
+    (|p| crate::more::AppErrSerdeLite::show(futures::executor::block_on(crate::more::ESerdelite { plan: p }.run_on_client())),
+     |p| crate::more::AppErrSerdeLite::show(futures::executor::block_on(crate::more::e_serdelite(p)))),
+    (|p| crate::more::AppErrRkyv::show(futures::executor::block_on(crate::more::ERkyvPut { plan: p }.run_on_client())),
+     |p| crate::more::AppErrRkyv::show(futures::executor::block_on(crate::more::e_rkyv_put(p)))),
 ];
 
 type R = Result<Val, ServerFnError>;
@@ -390,6 +450,13 @@ table!(
     f_rkyv_rkyv / FRkyvRkyv, f_serdelite_serdelite / FSerdeliteSerdelite,
     f_geturl_cbor / FGeturlCbor, f_posturl_rkyv / FPosturlRkyv, f_rkyv_postcard / FRkyvPostcard,
     f_patchcbor_putcbor / FPatchcborPutcbor, f_putcbor_msgpack / FPutcborMsgpack,
+    f_json_patchcbor / FJsonPatchcbor, f_patchmsgpack_putmsgpack / FPatchmsgpackPutmsgpack,
+    f_putmsgpack_patchmsgpack / FPutmsgpackPatchmsgpack,
+    f_patchpostcard_putpostcard / FPatchpostcardPutpostcard,
+    f_putpostcard_patchpostcard / FPutpostcardPatchpostcard,
+    f_patchrkyv_putrkyv / FPatchrkyvPutrkyv, f_putrkyv_patchrkyv / FPutrkyvPatchrkyv,
+    f_patchserdelite_putserdelite / FPatchserdelitePutserdelite,
+    f_putserdelite_patchserdelite / FPutserdelitePatchserdelite,
 );
 
 // ---------------------------------------------------------------- streams
@@ -489,20 +556,20 @@ pub async fn upload(data: MultipartData) -> Result<Vec<(String, usize)>, ServerF
 }
 
 // ---------------------------------------------------------------- case decoding
-fn u64_of(s: &Sexp) -> u64 {
+pub fn u64_of(s: &Sexp) -> u64 {
     ((s.at(0).num() as u64) << 32) | (s.at(1).num() as u64 & 0xffff_ffff)
 }
-fn u64_to(v: u64) -> Sexp {
+pub fn u64_to(v: u64) -> Sexp {
     Lst(vec![Num((v >> 32) as i64), Num((v & 0xffff_ffff) as i64)])
 }
-fn inner_of(s: &Sexp) -> Inner {
+pub fn inner_of(s: &Sexp) -> Inner {
     Inner {
         x: s.at(0).num() as i32,
         label: text(s.at(1)),
         opt: s.at(2).list().first().map(text),
     }
 }
-fn inner_to(i: &Inner) -> Sexp {
+pub fn inner_to(i: &Inner) -> Sexp {
     Lst(vec![
         Num(i.x as i64),
         Sexp::from_str(&i.label),
@@ -537,10 +604,10 @@ pub fn val_to(v: &Val) -> Sexp {
         Lst(v.maybe.iter().map(inner_to).collect()),
     ])
 }
-fn plan_of(s: &Sexp) -> Plan {
+pub fn plan_of(s: &Sexp) -> Plan {
     Plan { fail: s.at(0).num() as u8, msg: text(s.at(1)) }
 }
-fn res_to(r: &R) -> Sexp {
+pub fn res_to(r: &R) -> Sexp {
     match r {
         Ok(v) => Lst(vec![Num(0), val_to(v)]),
         Err(e) => Lst(vec![Num(1), crate::errs::err_to_sexp(e)]),
@@ -565,13 +632,13 @@ fn items_to<T, F: Fn(&T) -> Sexp>(items: &[Result<T, ServerFnError>], f: F) -> S
 }
 
 /// (request-piece-size response-piece-size) for streamed bodies; absent = as sent
-fn set_rechunk(s: &Sexp) {
+pub fn set_rechunk(s: &Sexp) {
     if s.list().len() == 2 {
         crate::looprt::RECHUNK.with(|r| r.set((s.at(0).num() as usize, s.at(1).num() as usize)));
     }
 }
 /// a chunk is written as segments `(n bytes)`: `bytes` repeated `n` times
-fn chunk_of(s: &Sexp) -> Vec<u8> {
+pub fn chunk_of(s: &Sexp) -> Vec<u8> {
     let mut v = vec![];
     for seg in s.list() {
         let unit = seg.at(1).bytes();
@@ -584,12 +651,12 @@ fn chunk_of(s: &Sexp) -> Vec<u8> {
 fn chunk_text(s: &Sexp) -> String {
     String::from_utf8(chunk_of(s)).expect("case strings are valid UTF-8 by construction")
 }
-fn fnv(b: &[u8]) -> u64 {
+pub fn fnv(b: &[u8]) -> u64 {
     b.iter().fold(0xcbf29ce484222325u64, |h, x| (h ^ *x as u64).wrapping_mul(0x100000001b3))
 }
 /// what a stream delivered, independent of where it was cut: maximal runs of data as
 /// (0 length fnv1a64), error items as (1 error)
-fn runs(items: impl Iterator<Item = Result<Vec<u8>, Sexp>>) -> Sexp {
+pub fn runs(items: impl Iterator<Item = Result<Vec<u8>, Sexp>>) -> Sexp {
     let mut out = vec![];
     let mut run: Option<Vec<u8>> = None;
     let mut flush = |run: &mut Option<Vec<u8>>, out: &mut Vec<Sexp>| {
@@ -610,7 +677,7 @@ fn runs(items: impl Iterator<Item = Result<Vec<u8>, Sexp>>) -> Sexp {
     flush(&mut run, &mut out);
     Lst(out)
 }
-fn sum_text(r: Result<TextStream, ServerFnError>) -> Sexp {
+pub fn sum_text(r: Result<TextStream, ServerFnError>) -> Sexp {
     match r {
         Ok(s) => {
             let items: Vec<Result<String, ServerFnError>> =
@@ -628,7 +695,7 @@ fn sum_text(r: Result<TextStream, ServerFnError>) -> Sexp {
 }
 
 /// (request-frame-header response-frame-header), each 0..=9; absent = keep the default
-fn set_frame(s: &Sexp) {
+pub fn set_frame(s: &Sexp) {
     if s.list().len() == 2 {
         crate::looprt::FRAME
             .with(|f| f.set((s.at(0).num() as usize % 10, s.at(1).num() as usize % 10)));
@@ -656,7 +723,10 @@ pub fn run(c: &Sexp) -> Sexp {
             match c.at(4).num() {
                 0 => f.request = Some(edit_of(c.at(5))),
                 1 => f.response = Some(edit_of(c.at(5))),
-                _ => f.status = Some(c.at(5).num() as u16),
+                2 => f.status = Some(c.at(5).num() as u16),
+                // the transport itself fails / the body cannot be read
+                3 => f.send_fails = true,
+                _ => f.read_fails = true,
             }
             let r = with_faults(f, || remote(v, plan));
             match r {
@@ -769,22 +839,17 @@ pub fn run(c: &Sexp) -> Sexp {
                 0 => show(block_on(PoisonArg { pad, m }.run_on_client())),
                 1 => show(block_on(PoisonResult { pad }.run_on_client()).map(|o| o.m.len() as u32)),
                 2 => show(block_on(NanArg { x: f64::NAN }.run_on_client())),
-                _ => show(block_on(
+                3 => show(block_on(
                     Deep { d: D1 { d: D2 { d: D3 { d: D4 { d: D5 { d: D6 { x: 7 } } } } } } }
                         .run_on_client(),
                 )),
+                // an error value its own encoder cannot encode (pad = number of map entries)
+                _ => crate::more::badkeys((c.at(2).num().clamp(0, 5000) % 256) as u8),
             }
         }
         // custom error types with text and binary encoders
         21 => {
-            let plan = EPlan {
-                variant: c.at(2).at(0).num() as u8,
-                id: u64_of(c.at(2).at(1)),
-                what: text(c.at(2).at(2)),
-                code: c.at(2).at(3).num() as u32,
-                many: c.at(2).at(4).bytes(),
-                kind: c.at(2).at(5).num() as u8,
-            };
+            let plan = eplan_of(c.at(2));
             set_frame(c.at(3));
             let (remote, direct) = APP_FNS[c.at(1).num() as usize % APP_FNS.len()];
             Lst(vec![remote(plan.clone()), direct(plan)])
